@@ -18,7 +18,7 @@ BOUNDS = {'quick': 'shapes (nr,ntheta,nC): (5,4,2) (6,4,3) (7,8,3) (9,8,auto); b
 def jobs(tier, seed):
     J = []
     if tier == 'quick':
-        shapes = [(5, 4, 2), (6, 4, 3), (7, 8, 3), (9, 8, -1)]
+        shapes = [(5, 4, 2), (6, 4, 3), (7, 8, 3), (9, 8, -1), (7, 12, 3), (6, 6, 2)]
     else:
         shapes = [(nr, nt, nC) for nr in range(5, 10) for nt in (4, 6, 8, 12) for nC in list(range(2, nr - 2)) + [-1]]
     for (nr, nt, nC) in shapes:
